@@ -1053,6 +1053,8 @@ func (e *Engine) verifyCase(fn *ssa.Function, c *Contract, cs *Case, res *FuncRe
 	}
 	if c.Proto != "" {
 		vc.proto = e.newProtoRun(st, fn, c)
+		vc.entry = st
+		vc.proto.bind(e, st, args[0])
 	}
 	vc.entry = st.clone()
 	e.cover(st, "requires_satisfiable", fn.Pos())
